@@ -924,10 +924,12 @@ def transplant(annot_text, new_ss):
             a, b = btoks[i1].a, btoks[i2 - 1].b
             out.append(full[pos:a])
             out.append(" " + join(new_ss[j1:j2]) + " ")
-            # keep annotations that were inside the replaced span (after the replacement)
+            # keep annotations that were inside the replaced span (after the replacement, each on its own line so
+            # that line-form markers stay recognisable)
             for (x, y) in ins_spans:
                 if a <= x and y <= b:
-                    out.append(full[x:y])
+                    seg = full[x:y]
+                    out.append("\n" + seg + ("" if seg.endswith("\n") else "\n"))
                     displaced += 1
             pos = b
     out.append(full[pos:])
